@@ -19,6 +19,8 @@ func init() { props["C16"] = c16 }
 
 var textFrameRe = regexp.MustCompile(`^TEXT [^,]*,(?: [^,$]*,)? \$(-?\d+)(?:-(\d+))?$`)
 
+var localUseRe = regexp.MustCompile(`^\tMOVQ\s+AX, (-?\d*)\(SP\)$`)
+
 func c16(c *Ctx) {
 	n := 600
 	if c.Thorough() {
@@ -88,6 +90,9 @@ func frameHistories(c *Ctx, n int, seedOff uint64, forceBP bool, file string) {
 				sz = 8 * (1 + rng.Intn(8))
 			case 4:
 				sz = 1 + rng.Intn(100)
+				if rng.Chance(25) {
+					sz = []int{128, 200, 256, 300, 512, 1000, 4096}[rng.Intn(7)]
+				}
 			default:
 				sz = []int{16, 32, 64, 3, 12}[rng.Intn(5)]
 			}
@@ -136,12 +141,23 @@ func frameHistories(c *Ctx, n int, seedOff uint64, forceBP bool, file string) {
 			die(err)
 		}
 		frame := int64(-1)
+		var printedOffs []int64 // the locals as the printed file addresses them (one `MOVQ AX, d(SP)` per allocation)
 		for _, ln := range strings.Split(string(out), "\n") {
 			if strings.HasPrefix(ln, "TEXT ") {
 				if m := textFrameRe.FindStringSubmatch(ln); m != nil {
 					frame, _ = strconv.ParseInt(m[1], 10, 64)
 				}
 			}
+			if m := localUseRe.FindStringSubmatch(ln); m != nil {
+				d, _ := strconv.ParseInt("0"+m[1], 10, 64)
+				if strings.HasPrefix(m[1], "-") {
+					d, _ = strconv.ParseInt(m[1], 10, 64)
+				}
+				printedOffs = append(printedOffs, d)
+			}
+		}
+		if fmt.Sprint(printedOffs) != fmt.Sprint(offs) {
+			o.Plan.GoViolations = append(o.Plan.GoViolations, GoViolation{Key: "locals:printed-address", Desc: fmt.Sprintf("AllocLocal sizes %v returned the offsets %v but the printed function addresses the locals at %v(SP)", sizes, offs, printedOffs), Replay: map[string]any{"sizes": sizes, "text": string(out)}})
 		}
 		// whether the compiled code writes the base pointer is read off the instructions' own output lists
 		for _, nd := range f.Functions()[0].Nodes {
